@@ -1193,7 +1193,11 @@ func (p *Parser) parsePropertyName(in string) (propertyName PropertyName) {
 		p.next()
 	} else if p.tt == OpenBracketToken {
 		p.next()
+		// a computed property name is any expression, it has no influence on whether we are parsing arrow function parameters
+		prevAssumeArrowFunc, prevIn := p.assumeArrowFunc, p.in
+		p.assumeArrowFunc, p.in = false, true
 		propertyName.Computed = p.parseExpression(OpAssign)
+		p.assumeArrowFunc, p.in = prevAssumeArrowFunc, prevIn
 		if !p.consume(in, CloseBracketToken) {
 			return
 		}
